@@ -3,45 +3,56 @@ EXTENDS Integers, Sequences, FiniteSets, TLC, TLCExt, Json, CSV, IOUtils, Sequen
 CONSTANTS MaxOps, Emit
 F == INSTANCE FormulaSeq
 
-T(n, d) == [name |-> n, deg |-> d]
-Pool == << T("1", 0), T("a", 1), T("b", 1), T("a:b", 2), T("a:b:c", 3), T("2:b", 1) >>
-Names == {Pool[i].name : i \in DOMAIN Pool}
-Starts == << <<>>, <<Pool[2], Pool[4]>>, <<Pool[1], Pool[3], Pool[2], Pool[5]>> >>
+\* factor ids in string order: literals below 10
+FName(id) == CASE id = 1 -> "1" [] id = 2 -> "2" [] id = 11 -> "a" [] id = 12 -> "b" [] id = 13 -> "c"
+RECURSIVE Name(_)
+Name(t) == IF Len(t) = 1 THEN FName(t[1]) ELSE FName(t[1]) \o ":" \o Name(Tail(t))
+Pool == << <<1>>, <<11>>, <<12>>, <<11, 12>>, <<11, 12, 13>>, <<2, 12>>, <<12, 11>> >>
+Keys == {F!Key(Pool[i]) : i \in DOMAIN Pool}
+Starts == << <<>>, <<Pool[2], Pool[4]>>, <<Pool[1], Pool[3], Pool[2], Pool[5]>>, <<Pool[7], Pool[3], Pool[6], Pool[2]>> >>
+Modes == {"none", "degree", "sort"}
 
-VARIABLES ts, hist, start, last
-vars == <<ts, hist, start, last>>
+VARIABLES ts, hist, start, last, mode
+vars == <<ts, hist, start, last, mode>>
 Op(name, i, t) == [op |-> name, i |-> i, t |-> t]
 
-Init == /\ start \in DOMAIN Starts /\ ts = F!StableSort(Starts[start]) /\ hist = <<>> /\ last = "init"
-Next == /\ Len(hist) < MaxOps /\ UNCHANGED start
-        /\ \/ \E i \in 0..3, p \in DOMAIN Pool : ts' = F!Insert(ts, i, Pool[p]) /\ hist' = Append(hist, Op("insert", i, Pool[p].name)) /\ last' = "ok"
-           \/ \E i \in 0..3, p \in DOMAIN Pool : /\ hist' = Append(hist, Op("setitem", i, Pool[p].name))
-                 /\ IF F!CanIndex(ts, i) THEN ts' = F!SetItem(ts, i, Pool[p]) /\ last' = "ok" ELSE ts' = ts /\ last' = "IndexError"
+Init == /\ start \in DOMAIN Starts /\ mode \in Modes /\ ts = F!Reorder(mode, Starts[start]) /\ hist = <<>> /\ last = "init"
+Next == /\ Len(hist) < MaxOps /\ UNCHANGED <<start, mode>>
+        /\ \/ \E i \in 0..3, p \in DOMAIN Pool : ts' = F!Insert(mode, ts, i, Pool[p]) /\ hist' = Append(hist, Op("insert", i, Name(Pool[p]))) /\ last' = "ok"
+           \/ \E i \in 0..3, p \in DOMAIN Pool : /\ hist' = Append(hist, Op("setitem", i, Name(Pool[p])))
+                 /\ IF F!CanIndex(ts, i) THEN ts' = F!SetItem(mode, ts, i, Pool[p]) /\ last' = "ok" ELSE ts' = ts /\ last' = "IndexError"
            \/ \E i \in 0..3 : /\ hist' = Append(hist, Op("delitem", i, ""))
                  /\ IF F!CanIndex(ts, i) THEN ts' = F!DelItem(ts, i) /\ last' = "ok" ELSE ts' = ts /\ last' = "IndexError"
-           \/ \E p \in DOMAIN Pool : ts' = F!AppendT(ts, Pool[p]) /\ hist' = Append(hist, Op("append", 0, Pool[p].name)) /\ last' = "ok"
+           \/ \E p \in DOMAIN Pool : ts' = F!AppendT(mode, ts, Pool[p]) /\ hist' = Append(hist, Op("append", 0, Name(Pool[p]))) /\ last' = "ok"
            \/ /\ hist' = Append(hist, Op("pop", 0, ""))
-              /\ IF ts # <<>> THEN ts' = SubSeq(ts, 1, Len(ts) - 1) /\ last' = ts[Len(ts)].name ELSE ts' = ts /\ last' = "IndexError"
-           \/ \E p \in DOMAIN Pool : /\ hist' = Append(hist, Op("remove", 0, Pool[p].name))
+              /\ IF ts # <<>> THEN ts' = SubSeq(ts, 1, Len(ts) - 1) /\ last' = Name(ts[Len(ts)]) ELSE ts' = ts /\ last' = "IndexError"
+           \/ \E p \in DOMAIN Pool : /\ hist' = Append(hist, Op("remove", 0, Name(Pool[p])))
                  /\ IF F!IndexOf(ts, Pool[p]) >= 0 THEN ts' = F!DelItem(ts, F!IndexOf(ts, Pool[p])) /\ last' = "ok" ELSE ts' = ts /\ last' = "ValueError"
-           \/ ts' = F!Extend(ts, <<Pool[4], Pool[1]>>) /\ hist' = Append(hist, Op("extend", 0, "a:b,1")) /\ last' = "ok"
+           \/ ts' = F!Extend(mode, ts, <<Pool[7], Pool[1]>>) /\ hist' = Append(hist, Op("extend", 0, "b:a,1")) /\ last' = "ok"
 Spec == Init /\ [][Next]_vars
 
-OrderingInvariant == F!Sorted(ts)
-\* list semantics on the multiset of terms
+OrderingInvariant == F!Sorted(mode, ts)
+\* list semantics on the multiset of terms (terms identified as Term.__eq__ does)
 MultisetLaw == [][hist' # hist =>
+   LET o == hist'[Len(hist')]
+       kOf(n) == {F!Key(Pool[p]) : p \in {q \in DOMAIN Pool : Name(Pool[q]) = n}}
+   IN
+   \A k \in Keys :
+     F!Count(ts', k) = F!Count(ts, k)
+        + (IF o.op \in {"insert", "append"} /\ k \in kOf(o.t) THEN 1 ELSE 0)
+        + (IF o.op = "extend" /\ k \in {<<11, 12>>, <<1>>} THEN 1 ELSE 0)
+        + (IF o.op = "setitem" /\ last' = "ok" /\ k \in kOf(o.t) THEN 1 ELSE 0)
+        - (IF o.op = "setitem" /\ last' = "ok" /\ F!Key(ts[o.i + 1]) = k THEN 1 ELSE 0)
+        - (IF o.op = "delitem" /\ last' = "ok" /\ F!Key(ts[o.i + 1]) = k THEN 1 ELSE 0)
+        - (IF o.op = "pop" /\ ts # <<>> /\ F!Key(ts[Len(ts)]) = k THEN 1 ELSE 0)
+        - (IF o.op = "remove" /\ last' = "ok" /\ k \in kOf(o.t) THEN 1 ELSE 0)]_vars
+\* with ordering "none" the container is exactly a list: nothing but the addressed position moves
+ListLaw == [][(hist' # hist /\ mode = "none") =>
    LET o == hist'[Len(hist')] IN
-   \A n \in Names :
-     F!Count(ts', n) = F!Count(ts, n)
-        + (IF o.op \in {"insert", "append"} /\ o.t = n THEN 1 ELSE 0)
-        + (IF o.op = "extend" /\ n \in {"a:b", "1"} THEN 1 ELSE 0)
-        + (IF o.op = "setitem" /\ last' = "ok" /\ o.t = n THEN 1 ELSE 0)
-        - (IF o.op = "setitem" /\ last' = "ok" /\ ts[o.i + 1].name = n THEN 1 ELSE 0)
-        - (IF o.op = "delitem" /\ last' = "ok" /\ ts[o.i + 1].name = n THEN 1 ELSE 0)
-        - (IF o.op = "pop" /\ last' = n THEN 1 ELSE 0)
-        - (IF o.op = "remove" /\ last' = "ok" /\ o.t = n THEN 1 ELSE 0)]_vars
+     /\ (o.op = "setitem" /\ last' = "ok") => \A j \in DOMAIN ts : j # o.i + 1 => ts'[j] = ts[j]
+     /\ (o.op = "append") => SubSeq(ts', 1, Len(ts)) = ts]_vars
 
 Out == IOEnv.OUT_FILE
-EmitCase == Emit => CSVWrite("%1$s", <<ToJson([start |-> [i \in DOMAIN Starts[start] |-> Starts[start][i].name], hist |-> hist, last |-> last,
-                                          terms |-> [i \in DOMAIN ts |-> ts[i].name]])>>, Out)
+EmitCase == Emit => CSVWrite("%1$s", <<ToJson([start |-> [i \in DOMAIN Starts[start] |-> Name(Starts[start][i])], hist |-> hist, last |-> last, mode |-> mode,
+                                          terms |-> [i \in DOMAIN ts |-> Name(ts[i])]])>>, Out)
 =============================================================================
